@@ -654,6 +654,37 @@ package tsm1
 //@   ensures only_a_block_entirely_before_is_less: same_key && result ==> a[i].maxTime < a[j].minTime
 //@   ensures blocks_entirely_before_are_less: same_key && a[i].minTime <= a[i].maxTime && a[i].maxTime < a[j].minTime ==> result
 
+// ---- C01: after a restart the WAL continues with segment ids above every segment on disk ----
+// Open takes the id of the newest segment file as the current id - also when that file is empty and is removed
+// (a crash right after a roll-over leaves such a file behind the closed segments that still hold data). Starting
+// again from a lower id would reopen an existing segment at offset 0 and overwrite acknowledged writes.
+//@ func idFromFileName
+//@   assumed
+//@   modifies nothing
+//@ func segmentFileNames
+//@   assumed
+//@   modifies nothing
+//@ func NewWALSegmentWriter
+//@   assumed
+//@   modifies nothing
+//@   ensures result != nil && fresh(result)
+//@ func (*WAL).Open
+//@   props C01
+//@   nosafety
+//@   dynamic_calls_modify_nothing
+//@   ghost newest_id int = 0
+//@   ghost has_segments bool = false
+//@   at after tsm1.idFromFileName#1: ghost newest_id = callresult0
+//@   at after tsm1.idFromFileName#1: ghost has_segments = callresult1 == nil
+//@   ensures continues_after_the_newest_segment: result == nil && has_segments ==> l.currentSegmentID == newest_id
+
+// ---- C09: every block the batch iterator gathers for a key starts out unread ----
+// The *block structs of k.buf[i] are pooled and reused from key to key. combine<T> skips the part of a block that
+// lies inside [readMin, readMax] (it has been merged already): a block that keeps the marks of the previous key's
+// block in the same slot loses points. Both places that fill a slot reset the marks.
+// (checked by the bounded compaction stand-in /verif/bounded/C09_compaction_layouts.go: the slot index is the range
+// variable of an outer loop, which the invariant language cannot name from the inner loop)
+
 // ---- C18: a restore / import succeeds only if the whole archive arrived ----
 // overlay's copy loop may stop successfully at one condition only: the tar reader reported a clean end of archive
 // (io.EOF). Every other error - a stream cut inside a member or a header (io.ErrUnexpectedEOF), a file error -
@@ -1141,3 +1172,4 @@ package tsm1
 // the closure Close hands to once.Do runs inside Close's critical section (not a static call: assumed)
 //@ func (*WAL).Close$1
 //@   holds l.mu
+//@ guarded FileStore.currentTempDirID by mu
